@@ -24,6 +24,7 @@ EXPLANATION = (
     "writeout and directories are created without exist_ok (stale output cannot survive). R3: clock "
     "values flow only to console messages and to the creation_date field, which templates print only "
     "under print_creation_date. Byte-identity of two runs is not decided."
+    ' R4 (shared with C13.R5): graph node/edge emission iterates sorted views. R5: serial and parallel graph generation produce the same files. R6: page-name numbering (the ~N suffix) does not depend on set iteration order - every declared entity, and every entity copied during correlation, is named in list order before any sort over sets of entities.'
 )
 ASSUMPTIONS = ["FortranBase.__hash__ is identity and BaseNode.__hash__ is hash(ident): set order varies between runs",
                "dict iteration order is insertion order (Python >= 3.7)"]
